@@ -452,7 +452,32 @@ func (v *vpool) opReorg() {
 	v.emitOp("reset", "-", nil, nil, dropped, d)
 }
 
+// senders with UNEVEN numbers of executable transactions overflow the pool-wide slot limit in one batch (the equalisation
+// phase of the limit enforcement), then each of them submits the nonce one above what it was left with: a gap, to be queued
+func (v *vpool) directedUneven() {
+	var txs []*types.Transaction
+	counts := []int{0, 3 + v.rng.Intn(4), 3 + v.rng.Intn(2), 1 + v.rng.Intn(3), 3} // sender 0 (possibly local) stays out
+	for s, n := range counts {
+		for k := 0; k < n; k++ {
+			txs = append(txs, v.mkTx(s, uint64(k), int64(3+v.rng.Intn(5)), 21000, 1).tx)
+		}
+	}
+	v.rng.Shuffle(len(txs), func(i, j int) { txs[i], txs[j] = txs[j], txs[i] })
+	v.pool.AddRemotes(txs)
+	v.emitOp("batch", "-", nil, nil, nil, 0)
+	pend := v.pendingOf()
+	for s := 1; s < len(counts); s++ {
+		left := uint64(len(pend[vaddr(vkey(s))]))
+		t := v.mkTx(s, left+1, 9, 21000, 1)
+		err := v.pool.AddRemote(t.tx)
+		v.emitOp("add", fmt.Sprintf("s%d", s), v.txJSON(t), err, nil, 0)
+	}
+}
+
 func (v *vpool) history(nops int) {
+	if !v.roomy && v.rng.Intn(2) == 0 {
+		v.directedUneven()
+	}
 	for i := 0; i < nops; i++ {
 		switch r := v.rng.Intn(20); {
 		case r < 11:
